@@ -510,6 +510,28 @@ def build_pool(cs, ctx):
     gnan.data[...] = rs.uniform(0, 30, (nr, nc))
     gnan.data[rs.uniform(size=(nr, nc)) < 0.25] = np.nan
     pool.add("field", gnan, None, "field[f8 with NaN gaps]")
+    # grids with data bounds whose cells were afterwards written in place
+    # (setitem / fill do not clip): e.g. a no-data flag below mindata
+    gb = Grid("bounded", nc, nr, cellsize=0.5, xllcorner=10.0, yllcorner=-5.0,
+              dtype=np.float64, nodata=-1.0)
+    gb.data[...] = rs.uniform(0, 100, (nr, nc))
+    gb.mindata = 0.0
+    gb.maxdata = 100.0
+    gb[[0, nr * nc - 1]] = -1.0
+    gb[1] = 250.0
+    pool.add("field", gb, None, "field[f8 with data bounds, flags outside]")
+    gbi = Grid("boundedint", nc, nr, cellsize=0.5, xllcorner=10.0,
+               yllcorner=-5.0, dtype=np.int32, nodata=-9)
+    gbi.data[...] = rs.randint(0, 50, (nr, nc))
+    gbi.mindata = 0
+    gbi[[0, 2]] = -9
+    pool.add("field", gbi, None, "field[i4 with mindata, flags outside]",
+             {"int"})
+    # unsorted int64 cell numbers (as coord2cell returns them for points in
+    # arbitrary order)
+    cells = rs.permutation(nr * nc)[:max(2, (nr * nc) // 2)].astype(np.int64)
+    view, guards = pool.carve(cells, "contig", "cells")
+    pool.add("cells", view, guards, f"unsorted cell numbers[{len(cells)}]")
     gcoarse = Grid("coarse", max(2, nc // 2 + 1), max(2, nr // 2 + 1),
                    cellsize=1.5, xllcorner=9.5, yllcorner=-5.5,
                    dtype=np.float64, nodata=0)
@@ -561,7 +583,7 @@ def build_pool(cs, ctx):
 # ---------------------------------------------------------------------------
 class Entry:
     def __init__(self, name, needs, fn, opts=None, outs=(), plot=False,
-                 weight=3):
+                 weight=3, owned=True):
         self.name = name
         self.needs = needs      # [(param, kind, required tags or None)]
         self.fn = fn
@@ -569,6 +591,7 @@ class Entry:
         self.outs = set(outs)
         self.plot = plot
         self.weight = weight
+        self.owned = owned      # the caller owns the returned arrays
 
 
 TR_PARAMS = {
@@ -866,12 +889,15 @@ def catalogue():
         lambda cs: {"f": cs.flip("f", 50)})
     add("Catchment.delineate_boundary", [CA],
         lambda a, o: (a.c.delineate_boundary(),
-                      a.c.idxcells_boundary, a.c.xycells_boundary)[1:])
+                      a.c.idxcells_boundary, a.c.xycells_boundary)[1:],
+        owned=False)
     add("Catchment.compute_flowpathlengths", [CA],
-        lambda a, o: (a.c.compute_flowpathlengths(), a.c.flowpathlengths)[1])
+        lambda a, o: (a.c.compute_flowpathlengths(), a.c.flowpathlengths)[1],
+        owned=False)
     add("Catchment.to_dict", [CA],
         lambda a, o: {k: (v if k != "flowdir" else None)
-                      for k, v in a.c.to_dict().items()}, weight=1)
+                      for k, v in a.c.to_dict().items()}, weight=1,
+        owned=False)
     # fresh catchment per call: delineation as a pure function of its args
     FD = ("fd", "flowdir", None)
 
@@ -926,6 +952,26 @@ def catalogue():
                     "nval": cs.choice("nval", [4, 6, 10, 20]),
                     "others": [cs.draw(f"o{i}", 81) for i in range(6)]},
         weight=4)
+    def from_dict_then_use(a, o):
+        """A catchment described by caller-held arrays (cell numbers from
+        another tool), rebuilt with from_dict and then used."""
+        dic = {"name": "ext", "idxcell_outlet": int(a.cells[0]),
+               "idxinlets": None, "idxcells_area": a.cells,
+               "idxcells_area_filled": a.cells if o["same"] else
+               np.array(a.cells, copy=True),
+               "flowdir": a.fd.to_dict()}
+        c = hgrid.Catchment.from_dict(dic)
+        out = []
+        if o["boundary"]:
+            c.delineate_boundary()
+            out.append(np.array(c.idxcells_boundary, copy=True))
+        out.append(c.extent())
+        out.append(c.isin(int(a.cells[-1])))
+        return out
+    add("Catchment.from_dict(arrays) then boundary/extent",
+        [FD, ("cells", "cells", None)], from_dict_then_use,
+        lambda cs: {"same": cs.flip("same", 60),
+                    "boundary": cs.flip("boundary", 80)}, weight=4)
     add("Catchment(new).delineate_area", [FD], fresh_delineate,
         lambda cs: {"outlet": cs.draw("outlet", 81),
                     "inlets": [cs.draw("i0", 81)] if cs.flip("inl", 40)
@@ -1167,7 +1213,69 @@ def execute_call(c, pool, entries, ctx, log, snaps):
                         f"outside object #{bad.id} {bad.desc}", e.name)
     if exc is not None:
         return ("raise", exc, [], stamp)
-    return ("ok", rdigest(res), rvector(res), stamp)
+    out = ("ok", rdigest(res), rvector(res), stamp)
+    if e.owned:
+        # the caller owns what it was handed and may overwrite it; a function
+        # that hands out a cached or internal buffer shows at the next call
+        n = scribble_result(res, pool)
+        if n:
+            ctx.hit("fault.caller_overwrites_returned_arrays", n)
+            for o in pool.objs:
+                if snap(o.obj) != snaps[o.id]:
+                    # the result was a view of a pool object after all: this
+                    # says nothing about the function; put the snapshot right
+                    snaps[o.id] = snap(o.obj)
+                    ctx.hit("probe.result_aliased_a_pool_object")
+    return out
+
+
+def _pool_arrays(pool):
+    import pandas as pd
+    out = []
+    for o in pool.objs:
+        x = o.obj
+        if isinstance(x, np.ndarray):
+            out.append(x)
+        elif isinstance(x, (pd.Series, pd.DataFrame)):
+            out.append(x.values)
+        elif hasattr(x, "_getsize") and hasattr(x, "data"):
+            out.append(np.asarray(x.data))
+        elif hasattr(x, "flowdir") and hasattr(x, "delineate_area"):
+            out.append(np.asarray(x.flowdir.data))
+            for nm in ("_idxcells_area", "_idxcells_area_filled",
+                       "_idxcells_boundary", "_xycells_boundary",
+                       "_idxinlets"):
+                v = getattr(x, nm, None)
+                if isinstance(v, np.ndarray):
+                    out.append(v)
+        elif hasattr(x, "params") and hasattr(x, "constants"):
+            for vec in (x.params, x.constants):
+                for nm in ("_values", "_mins", "_maxs", "_defaults"):
+                    out.append(getattr(vec, nm))
+    out.extend(pool.parents)
+    return out
+
+
+def scribble_result(res, pool, depth=0, arrays=None):
+    """Overwrite plain numeric ndarrays found in a result (not views of pool
+    objects, not read-only). Returns the number of arrays overwritten."""
+    if depth > 3:
+        return 0
+    if arrays is None:
+        arrays = _pool_arrays(pool)
+    n = 0
+    if isinstance(res, np.ndarray):
+        if res.dtype.kind in "fiu" and res.size and res.flags.writeable \
+                and not any(np.may_share_memory(res, a) for a in arrays):
+            res[...] = 77 if res.dtype.kind != "f" else -7.75e7
+            n += 1
+    elif isinstance(res, (list, tuple)):
+        for x in res:
+            n += scribble_result(x, pool, depth + 1, arrays)
+    elif isinstance(res, dict):
+        for x in res.values():
+            n += scribble_result(x, pool, depth + 1, arrays)
+    return n
 
 
 def run_session(cs, log, ctx, order_seed=None, collect=None):
